@@ -75,7 +75,8 @@ def generate():
         ps = ", ".join(f"({lean_str(n)}, .{k})" for n, k in r["params"])
         out.append(f"  ⟨{lean_str(r['file'])}, {lean_str(r['cls'])}, {lean_str(r['name'])}, [{ps}], {'true' if r['property'] else 'false'}, {'true' if r['abstract'] else 'false'}⟩")
     lines.append(",\n".join(out))
-    lines += ["]", "", "end TdVerif.Gen.CacheTable", ""]
+    import c05_shapes
+    lines += ["]", "", c05_shapes.lean_def("cacheCode", c05_shapes.C06_FUNCS), "", "end TdVerif.Gen.CacheTable", ""]
     return "\n".join(lines), rows
 
 
